@@ -60,7 +60,10 @@ def st_case(draw):
            # a different fit performed on the same object first: the measured fit must not see its leftovers
            "prior": draw(st.sampled_from([None, None, "bounds", "vary", "weight", "range", "expr"])),
            # order in which the keywords are written in the call (fit_model(**kwargs) sees it)
-           "kw_order": draw(st.sampled_from(["model_first", "params_first", "reverse_alpha"]))}
+           "kw_order": draw(st.sampled_from(["model_first", "params_first", "reverse_alpha"])),
+           # entry point: Indentation.fit_model, or the public fitter class given the same keywords (on a curve that
+           # may already carry the settings of the prior fit: the keywords say what is fitted)
+           "route": draw(st.sampled_from(["fit_model", "fit_model", "fitter"]))}
     if draw(st.integers(0, 7)) == 0:
         # coarse sampling: the fitted segment holds only a handful of points ("any sampling"): noise-free,
         # unweighted, leastsq, half baseline / half indentation
@@ -131,8 +134,14 @@ def measure(case):
             idnt.fit_model(params_initial=p0, **kw0)
         except BaseException:  # noqa: the prior fit is only history
             pass
-    idnt.fit_model(**ordered_kwargs(dict(kw, params_initial=pi), cfg.get("kw_order")))
-    fp = idnt.fit_properties
+    if cfg.get("route") == "fitter":
+        from nanite.fit import IndentationFitter
+        fitter = IndentationFitter(idnt, **ordered_kwargs(dict(kw, params_initial=pi), cfg.get("kw_order")))
+        fitter.fit()
+        fp, fitcol = fitter.fp, fitter.fit_curve
+    else:
+        idnt.fit_model(**ordered_kwargs(dict(kw, params_initial=pi), cfg.get("kw_order")))
+        fp, fitcol = idnt.fit_properties, None
     a = synth.arrays(curve)
     t = curve["params"]
     ek = refmodels.EKEY[curve["model"]]
@@ -140,11 +149,13 @@ def measure(case):
     if fp.get("success"):
         pf = fp["params_fitted"]
         seg = a["segment"] == cfg["segment"]
+        if fitcol is None:
+            fitcol = idnt["fit"]
         out.update(cp=abs(pf["contact_point"].value - t["contact_point"]) / curve["depth"],
                    bl=abs(pf["baseline"].value - t["baseline"]) / a["frange"],
                    E=abs(pf[ek].value / t[ek] - 1),
-                   fit=float(np.nanmax(np.abs(idnt["fit"][seg] - a["clean"][seg])) / a["frange"]),
-                   fit_nan_off=bool(np.all(np.isnan(idnt["fit"][~seg]))),
+                   fit=float(np.nanmax(np.abs(fitcol[seg] - a["clean"][seg])) / a["frange"]),
+                   fit_nan_off=bool(np.all(np.isnan(fitcol[~seg]))),
                    n_contact=int(np.sum(seg & (a["tip"] < t["contact_point"]))))
     return out
 
@@ -156,7 +167,7 @@ def check_case(case, ctx):
     ncont = int(np.sum(seg & (a["tip"] < curve["params"]["contact_point"])))
     off = abs(np.log10(cfg["e_factor"])) > np.log10(1.01) and abs(cfg["cp_off"]) > 0.005
     s = sensitivity(curve)
-    classes = [curve["model"], cfg["method"], f"segment{cfg['segment']}", "prior_" + str(cfg.get("prior")),
+    classes = [curve["model"], cfg["method"], f"segment{cfg['segment']}", "prior_" + str(cfg.get("prior")), "route_" + str(cfg.get("route", "fit_model")),
                "noisy" if curve["noise"] else "noise_free", "weighted" if cfg["weight_cp"] else "unweighted"]
     if s < 0.05:
         classes.append("weakly_identifiable")
